@@ -137,4 +137,33 @@ def trimInner : Bool → List (List Nat) → List (List Nat)
 
 def splitTokens (l : List Nat) : List (List Nat) := trimInner true (splitRaw [] l)
 
+/-! ## the SMTP reply inside an HTTP response (`X-Smtp-Reply`) -/
+
+/-- `wsgiref.headers._formatparam` with quoting: backslash and double quote are escaped -/
+def escapeParam (v : List Nat) : List Nat :=
+  v.flatMap fun c => if c == 92 then [92, 92] else if c == 34 then [92, 34] else [c]
+
+def formatParam (name : List Nat) (value : List Nat) : List Nat :=
+  if value.isEmpty then name else name ++ [61, 34] ++ escapeParam value ++ [34]
+
+/-- `_build_http_response`: `Headers.add_header('X-Smtp-Reply', code, message=…[, command=…])` -/
+def buildXReply (code msg : List Nat) (cmd : Option (List Nat)) : List Nat :=
+  code ++ [59, 32] ++ formatParam [109, 101, 115, 115, 97, 103, 101] msg ++
+  (match cmd with
+   | some c => [59, 32] ++ formatParam [99, 111, 109, 109, 97, 110, 100] c
+   | none => [])
+
+def isDigitN (c : Nat) : Bool := 48 ≤ c && c ≤ 57
+
+/-- `reply_code_pattern = ^\s*(\d\d\d)\s*;` of the relay (ASCII digits; `\s` as in `isWsN`) -/
+def parseXReplyCode (h : List Nat) : Option (List Nat) :=
+  match lstripN h with
+  | d1 :: d2 :: d3 :: rest =>
+    if isDigitN d1 && isDigitN d2 && isDigitN d3 then
+      match lstripN rest with
+      | 59 :: _ => some [d1, d2, d3]
+      | _ => none
+    else none
+  | _ => none
+
 end Slimta.Wire
